@@ -98,8 +98,13 @@ def scenario(sid, case, vocab, origin):
     for t in case["tasks"]:
         k = t["id"]
         cls = "c13s%d%s" % (sid, k)
+        stale = ""
+        for pr in case.get("props", []):
+            if pr["task"] == k:
+                # leftovers of a standalone configuration: hard-coded chans.* defaults in the template's properties
+                stale += "".join("  chans.%s.0.%s: \"%s\"\n" % (pr["name"], f, vocab["stale_" + f]) for f in FIELDS)
         files["tasks/%s.yaml" % cls] = cs.task_class(
-            cls, mode=t["mode"],
+            cls, mode=t["mode"], extra=("properties:\n" + stale) if stale else "",
             bind=[bind_entry(d, vocab) for d in case["inb"] if d["lvl"] == "tmpl:" + k],
             connect=[connect_entry(o, wf, vocab) for o in case["outb"] if o["lvl"] == "tmpl:" + k])
         if t["grp"]:
@@ -241,6 +246,7 @@ def signature(inv, scn, detail, case):
         sig["claimants"] = "+".join(sorted({e.get("claimants", "?") for e in els if isinstance(e, dict)}))
     sig["ntasks"] = len(case.get("tasks", []))
     sig["inb"] = ["%s/%s/%s/%s/%s/%s" % (d["lvl"], d["name"], d["addr"], d["tr"], d["alias"] or "-", d["xt"] or "-") for d in case.get("inb", [])]
+    sig["stale_props"] = ["%s:%s" % (pr["task"], pr["name"]) for pr in case.get("props", [])]
     sig["outb"] = ["%s/%s/%s/%s" % (o["lvl"], o["name"], o["tk"], (o["tt"] + ":" + o["tn"]) if o["tk"] == "path" else o["ta"]) for o in case.get("outb", [])]
     return sig
 
@@ -264,12 +270,14 @@ def _run(ctx, replay_scn):
     ]
     ctx.rule = ("case = (1-3 tasks on 1-2 hosts, <= 2 inbound and <= 2 outbound declarations placed at template / task-role / "
                 "aggregator-role / root level, addressing, transport, alias, explicit targets, path/alias/explicit/dangling connect "
-                "targets); core catalogue exhaustive + seeded TLC simulation of the full catalogue; non-trivial = every case "
+                "targets, stale chans.* defaults in the template's properties); core catalogue exhaustive + seeded TLC simulation of the full catalogue; non-trivial = every case "
                 "(each configures or must be rejected)")
     scenarios = []
     meta = {}
     if replay_scn is not None:
         sc = dict(replay_scn)
+        sc["model"] = dict(sc["model"])
+        sc["model"].setdefault("props", [])   # replays recorded before the stale-properties dimension existed
         sc["origin"] = "replay"
         scenarios.append(sc)
         meta[sc["id"]] = {"pred": []}
@@ -287,7 +295,7 @@ def _run(ctx, replay_scn):
         ctx.transitions += r.generated
         nsim = 260 if quick else 4200
         rs = ctx.tlc("ChannelsGen", None, workers=1, cfg_text=cfg_gen(ctx, "full", True), sim="num=%d" % nsim,
-                     extra=["-depth", "7", "-seed", str(ctx.seed)], timeout=900)
+                     extra=["-depth", "8", "-seed", str(ctx.seed)], timeout=900)
         if rs.violated:
             ctx.save_debug(rs, "gen_sim.txt")
             raise vlib.Inconclusive("model inconsistency on a sampled case (%s): %s" % (rs.violated, vlib.tail(rs.out, 30)))
